@@ -231,6 +231,36 @@ func runC02(r *mc.Run) {
 		{"{unrelated}", world.Pool(U.Root), []*x509.Certificate{U.Root}},
 		{"{T.inter-as-root-is-not-listed: T.tcb}", world.Pool(T.Tcb), []*x509.Certificate{T.Tcb}},
 	}
+	// large pools: 100 unrelated roots with and without T among them, and 20 roots that share T's root name
+	// (other keys) listed before T's root
+	var manyU, manyUT, sameName []*x509.Certificate
+	for i := 0; i < 100; i++ {
+		k := world.NewKey(fmt.Sprintf("c02-many-root-%d", i))
+		cert := world.MakeCert(world.CertSpec{CN: fmt.Sprintf("Unrelated Root CA %d", i), IsCA: true, Key: k, MaxPathLen: 1}, nil, k)
+		manyU = append(manyU, cert)
+		manyUT = append(manyUT, cert)
+		if i == 57 {
+			manyUT = append(manyUT, T.Root)
+		}
+	}
+	for i := 0; i < 20; i++ {
+		k := world.NewKey(fmt.Sprintf("c02-same-name-root-%d", i))
+		sameName = append(sameName, world.MakeCert(world.CertSpec{CN: world.CNRoot, IsCA: true, Key: k, MaxPathLen: 1}, nil, k))
+	}
+	sameName = append(sameName, T.Root)
+	pools = append(pools, struct {
+		name string
+		pool *x509.CertPool
+		eff  []*x509.Certificate
+	}{"{100 unrelated + T}", world.Pool(manyUT...), manyUT}, struct {
+		name string
+		pool *x509.CertPool
+		eff  []*x509.Certificate
+	}{"{100 unrelated}", world.Pool(manyU...), manyU}, struct {
+		name string
+		pool *x509.CertPool
+		eff  []*x509.Certificate
+	}{"{20 roots named like T's, then T}", world.Pool(sameName...), sameName})
 	perms := permutations(3)
 	type pass struct {
 		name  string
